@@ -148,6 +148,12 @@ def build():
                   E('map', 'final(self).storage.data@ == old(self).storage.data@.insert(old(self).id, *final(r)) && final(self).id == old(self).id'),
                   E('wf', 'final(self).storage.data.wf()'),
                   E('events', 'final(self).storage.data.log() == old(self).storage.data.log() + old(self).storage.data.inner.ev_get_mut(old(self).id)', 'C12')])
+    u.fn(EN, ["impl<'a, 'b, T, D> OccupiedEntry<'a, 'b, T, D>", 'fn into_mut'], ret='r', props='C04 C12', impl_header=OH, key='OccupiedEntry::into_mut', rules=N8,
+         requires=OREQ('self'),
+         ensures=[E('val', '*r == old(self.storage).data@[self.id]'),
+                  E('map', 'map_inserted(old(self.storage).data, final(self.storage).data, self.id, *final(r))'),
+                  E('wf', 'final(self.storage).data.wf()'),
+                  E('events', 'final(self.storage).data.log() == old(self.storage).data.log() + old(self.storage).data.inner.ev_get_mut(self.id)', 'C12')])
     u.fn(EN, ["impl<'a, 'b, T, D> OccupiedEntry<'a, 'b, T, D>", 'fn insert'], ret='r', props='C04 C12', impl_header=OH, key='OccupiedEntry::insert', rules=N8,
          requires=OREQ('old(self)'),
          ensures=[E('ret', 'r == old(self).storage.data@[old(self).id]'),
@@ -166,6 +172,25 @@ def build():
          ensures=[E('val', '*r == component'),
                   E('map', 'map_inserted(old(self.storage).data, final(self.storage).data, self.id, *final(r))'),
                   E('wf', 'final(self.storage).data.wf()')])
+    # StorageEntry::{replace, or_insert, or_insert_with}: not under contract — Verus cannot name the pre/post state of a
+    # `&mut` held inside a by-value enum in a postcondition; they only dispatch to the OccupiedEntry/VacantEntry methods above.
+    # ---- generic access (src/storage/generic.rs): get_mut_or_default on both duplicated impls
+    GN = 'src/storage/generic.rs'
+    u.struct('src/storage/data.rs', ['type WriteStorage'])
+    GMD_ENS = lambda S_: [
+        E('stale', '!live(old(%s).entities, entity) ==> r is None && final(%s).data@ == old(%s).data@' % (S_, S_, S_), 'C03'),
+        E('present', 'live(old(%s).entities, entity) && old(%s).data@.dom().contains(entity.0) ==> r is Some && *r.unwrap() == old(%s).data@[entity.0] && final(%s).data@ == old(%s).data@.insert(entity.0, *final(r.unwrap()))' % (S_, S_, S_, S_, S_), 'C04'),
+        E('absent', 'live(old(%s).entities, entity) && !old(%s).data@.dom().contains(entity.0) ==> r is Some && *r.unwrap() == T::default_spec() && final(%s).data@ == old(%s).data@.insert(entity.0, *final(r.unwrap()))' % (S_, S_, S_, S_), 'C04'),
+    ]
+    GRULES = N8 + [('N8', r"Self::Component", 'T'), ('N10', r'Default::default\(\)', 'T::default_exec()')]
+    u.fn(GN, ["impl<'a, T> GenericWriteStorage for WriteStorage<'a, T>", 'fn get_mut_or_default'], ret='r', props='C03 C04',
+         impl_header="impl<'e, 'd, T> Storage<'e, T, &'d mut MaskedStorage<T>> where T: Component + DefaultSpec,", key='GenericWriteStorage(WriteStorage)::get_mut_or_default',
+         rules=GRULES, requires=WR, ensures=GMD_ENS('self'))
+    u.fn(GN, ["impl<'a: 'b, 'b, T> GenericWriteStorage for &'b mut WriteStorage<'a, T>", 'fn get_mut_or_default'], ret='r', props='C03 C04',
+         free='generic_ref_get_mut_or_default', key='GenericWriteStorage(&mut WriteStorage)::get_mut_or_default',
+         rules=GRULES + [('N12', r'fn get_mut_or_default\(&mut self,', "fn get_mut_or_default<'a: 'b, 'b, 'x, T: Component + DefaultSpec>(self_: &'x mut &'b mut WriteStorage<'a, T>,"),
+                         ('N12', r'\bself\b', 'self_'), ('N8', r"Option<&mut T>", "Option<&'x mut T>")],
+         requires=[E('data_wf', 'old(self_).data.wf()'), E('ents', 'ent_ok(old(self_).entities)')], ensures=GMD_ENS('self_'))
     # ---- drain (src/storage/drain.rs)
     DR = 'src/storage/drain.rs'
     u.struct(DR, ['struct Drain'])
